@@ -59,6 +59,7 @@ class Unit:
     assumptions: list = dataclasses.field(default_factory=list)
     trusted: list = dataclasses.field(default_factory=list)
     harness_crate: str = ""
+    kind: str = "kani"              # "kani" | "verus" (spec-level lemma files checked by `verus <file>`; harness.name = file under /verif)
     pre_build: object = None        # callable(ws: Path): unit-specific mechanical generation step after injection
     allow_unsafe: bool = False      # harness module needs #[allow(unsafe_code)] (crate must not forbid it)
     harness_path: str = ""          # module path prefix of the harness fns (for --exact), e.g. "base64::verif::vharness"         # if set: cargo-kani runs in this extra crate dir (copied from /verif) instead of a repo crate
@@ -346,7 +347,39 @@ def classify(unit: Unit, h: Harness, out: str, rc: int, timed_out: bool, wall: f
     return r
 
 
+def run_verus(unit: Unit, h: Harness, logdir: Path) -> HarnessResult:
+    t0 = time.time()
+    log_path = logdir / f"{unit.name}.{re.sub(r'[^A-Za-z0-9_]', '_', h.name)}.log"
+    r = HarnessResult(unit.name, h, "undecided", log_path=str(log_path), solver="Verus 0.2026.09.13 + Z3")
+    try:
+        p = sh(["verus", str(VERIF / h.name), "--time"], cwd=logdir, timeout=h.timeout)
+    except subprocess.TimeoutExpired:
+        r.reason = f"timeout after {h.timeout}s"
+        return r
+    log_path.write_text(p.stdout)
+    r.wall_s = time.time() - t0
+    m = re.search(r"verification results::\s*(\d+) verified, (\d+) errors", p.stdout)
+    ms = re.search(r"total-time:\s*(\d+) ms|smt-time.*?(\d+) ms", p.stdout)
+    if not m:
+        r.reason = "no verdict from Verus: " + tail_err(p.stdout)
+        return r
+    ok, bad = int(m.group(1)), int(m.group(2))
+    r.n_checks, r.n_success = ok + bad, ok
+    r.checks = [CheckResult(h.name, "SUCCESS" if bad == 0 else "FAILURE", h.desc, h.name)]
+    if ok + bad == 0:
+        r.reason = "zero obligations generated (vacuity guard)"
+    elif bad:
+        r.outcome = "failed"
+        r.failed = [CheckResult(h.name, "FAILURE", h.desc, h.name)]
+        r.reason = "Verus could not discharge the lemma"
+    else:
+        r.outcome = "success"
+    return r
+
+
 def run_harness(unit: Unit, h: Harness, ws: Path, logdir: Path, playback=False) -> HarnessResult:
+    if unit.kind == "verus":
+        return run_verus(unit, h, logdir)
     cwd = ws / unit.harness_crate if unit.harness_crate else ws
     if unit.harness_path:
         cmd = kani_base_cmd(unit) + ["--harness", f"{unit.harness_path}::{h.name}", "--exact"]
@@ -376,6 +409,8 @@ def run_harness(unit: Unit, h: Harness, ws: Path, logdir: Path, playback=False) 
 
 def run_unit(unit: Unit, harnesses: list, logdir: Path, jobs: int):
     """Returns (results, injection_record, build_s). Raises Undecided for unit-level problems."""
+    if unit.kind == "verus":
+        return [run_verus(unit, h, logdir) for h in harnesses], {}, 0.0, None
     ws = scratch_root() / unit.name
     copy_repo(ws)
     record = inject(unit, ws)
